@@ -913,7 +913,7 @@ fn short_escape_case(ch: &mut Choices<'_>, st: &mut Stats) -> CaseResult {
 /// Every character (U+0000..U+017F and a few beyond) in every digit position of
 /// the escapes and of hex pairs (exhaustive): only hex / octal digits are digits.
 const DIGIT_ALPHABET_EXTRA: [char; 6] = ['\u{2028}', '\u{ff10}', '\u{ff21}', '\u{0660}', '\u{1f600}', '\u{fffd}'];
-const DIGIT_TEMPLATES: usize = 10;
+const DIGIT_TEMPLATES: usize = 13;
 
 fn digit_alphabet_total() -> u64 {
     ((0x180 + DIGIT_ALPHABET_EXTRA.len()) * DIGIT_TEMPLATES) as u64
@@ -951,6 +951,27 @@ fn digit_alphabet_case(ch: &mut Choices<'_>, st: &mut Stats) -> CaseResult {
             (Ok(Ok(got)), Some(v)) => {
                 if got != cmp("s", "Equal", bytes_json(&v, false)) {
                     return Err(Fail::new("literal-value-mismatch", format!("{text:?}: got {got}, reference decodes {}", show_bytes(&v)), case(&text)));
+                }
+                st.class("digit-alphabet:accepted");
+            }
+            (Ok(Err(_)), None) => st.class("digit-alphabet:rejected"),
+        }
+    } else if t >= 10 {
+        // integer literals: the character right after the radix prefix / between digits
+        let (text, want): (String, Option<i64>) = match t {
+            10 => (format!("n == 0x{c}1"), c.to_digit(16).map(|d| (d * 16 + 1) as i64)),
+            11 => (format!("n == 0{c}7"), if c == 'x' || c == 'X' { return Ok(()) } else { c.to_digit(8).map(|d| (d * 8 + 7) as i64) }),
+            _ => (format!("n == 1{c}7"), c.to_digit(10).map(|d| (100 + d * 10 + 7) as i64)),
+        };
+        match (parse_json(&text), want) {
+            (Err(p), _) => return Err(Fail::new("parse-panic", p, case(&text))),
+            (Ok(Ok(got)), None) => {
+                return Err(Fail::new("malformed-literal-accepted", format!("{text:?}: U+{:04X} is not a digit of this integer literal, but it parsed to {got}", c as u32), case(&text)));
+            }
+            (Ok(Err(e)), Some(v)) => return Err(Fail::new("valid-literal-rejected", format!("{text:?} denotes {v} but was rejected:\n{e}"), case(&text))),
+            (Ok(Ok(got)), Some(v)) => {
+                if got != cmp("n", "Equal", json!(v)) {
+                    return Err(Fail::new("literal-value-mismatch", format!("{text:?}: got {got}, expected {v}"), case(&text)));
                 }
                 st.class("digit-alphabet:accepted");
             }
